@@ -60,6 +60,9 @@ def draw_case(data, tier):
     for _ in range(nfil):
         k, p = gen.draw_type(data, d, 2 if d == 2 else 1)
         filters.append({"k": k, "p": p, "M": data.draw(st.sampled_from([1, 3]), label="M"), "seed": data.draw(st.integers(0, 9999), label="fseed")})
+    # on cubic shapes the library's Kronecker-delta image (an invariant (2,0) tensor field) may join the leaves
+    if len(set(shape)) == 1 and data.draw(st.integers(0, 3), label="kron_leaf") == 0:
+        leaves.append({"k": 2, "p": 0, "praw": 0, "seed": 0, "kron": True})
     pool = [{"k": l["k"], "p": l["p"], "b": 2, "norm": False} for l in leaves]
     steps = data.draw(st.integers(1, 8 if tier == "quick" else 12), label="nsteps")
     prog = []
@@ -196,7 +199,16 @@ def run_case(case):
     nontrivial = len(prog) >= 2 and any(o in changing for o in opnames)
     key = [d, shape, torus, [(l["k"], l["p"]) for l in case["leaves"]], [(f["k"], f["p"], f["M"]) for f in case["filters"]], prog]
 
-    leaf_data = [gen.rng_ints(l["seed"], shape + (d,) * l["k"], 2) for l in case["leaves"]]
+    leaf_data = [np.asarray(geom.get_kronecker_delta_image(shape[0], d, 2).data).astype(np.int64) if l.get("kron") else gen.rng_ints(l["seed"], shape + (d,) * l["k"], 2)
+                 for l in case["leaves"]]
+    for l, a in zip(case["leaves"], leaf_data):
+        if l.get("kron"):
+            labels.append("kronecker_leaf")
+            expect = np.zeros(shape + (d, d), dtype=np.int64)
+            for i in range(d):
+                expect[..., i, i] = 1
+            if not exact_equal(a, expect):
+                return result(viol("C05/kronecker-delta-image", "get_kronecker_delta_image(N, D, 2) is not the identity matrix in every pixel"), True, key, labels)
     fil_data = [gen.rng_ints(f["seed"] + 77, (f["M"],) * d + (d,) * f["k"], 1) for f in case["filters"]]
     for fd in fil_data:
         if not np.any(fd):
